@@ -1,10 +1,162 @@
 import EpModel.Driver.Util
-/- `frag.*` and `spec.frag.*` operations (stub; filled in by the owner of this family). -/
+import EpModel.Model.Defrag
+import EpModel.Spec.Reassembly
+/- `frag.*` and `spec.frag.*` operations.
+
+   frag.buf   <proto> <stale-hex> <adds>        IpDefragBuf::new(proto, stale vec, []) then add, add, …
+              adds    = `-` | add(;add)*        add = <fo>:<mf>:<hex>
+              → per add `ok` / `err(…)`, `;`-joined, then `|proto=…,len=…,sections=[(s,e):hex,…],end=…,complete=…`
+   frag.pool  <history>                         IpDefragPool<u64,u32> session
+              history = item(;item)*
+              item    = d:<key>:<ts>:<fo>:<mf>:<hex>   IPv4 packet / IPv6 packet with fragment header
+                      | u:<key>:<ts>:<hex>             IPv4 packet without fragmentation / IPv6 packet without fragment header
+                      | n                              ARP frame
+                      | r                              return_buf(oldest outstanding result)
+                      | t:<minTs>                      retain(|t| t >= minTs)
+              key     = <4|6>,<src hex>,<dst hex>,<identification>,<protocol>,<vlans>,<channel>   vlans = `-` | id(+id){0,2}
+              → per item `none` / `ok(proto,LenSource,hex)` / `err(…)` / `ret(n)` / `retained(active)`, `;`-joined,
+                then `|active=…,fdata=…,fsec=…` (numbers of entries; which recycled vector is
+                popped after a `retain` depends on the hash order, so their lengths are not printed)
+   spec.frag.pool <history>                     the same history through Spec.Reasm (per item outputs only) -/
 namespace EpModel.Driver.Frag
-open EpModel EpModel.Driver
+open EpModel EpModel.Driver EpModel.Defrag
+
+def hexOfCells (cs : List Cell) : String :=
+  if cs.isEmpty then "-" else
+  String.ofList (cs.foldr (fun c acc =>
+    match c with
+    | some x => hexDigit (x.toNat / 16) :: hexDigit (x.toNat % 16) :: acc
+    | none => '?' :: '?' :: acc) [])
+
+def showErr : Err → String
+  | .unalignedFragmentPayloadLen o l => s!"err(UnalignedFragmentPayloadLen(offset={o},payload_len={l}))"
+  | .segmentTooBig o l m => s!"err(SegmentTooBig(offset={o},payload_len={l},max={m}))"
+  | .conflictingEnd p c => s!"err(ConflictingEnd(previous_end={p},conflicting_end={c}))"
+  | .allocationFailure l => s!"err(AllocationFailure(len={l}))"
+
+def argBool (s : String) : Option Bool :=
+  if s = "1" then some true else if s = "0" then some false else none
+
+def showOptNat : Option Nat → String
+  | none => "none"
+  | some n => s!"some({n})"
+
+/-! #### frag.buf -/
+
+def parseAdd (s : String) : Option (Nat × Bool × Bytes) :=
+  match s.splitOn ":" with
+  | [fo, mf, h] => do
+    let fo ← argNat fo; let mf ← argBool mf; let b ← argHex h
+    if fo ≤ 8191 then pure (fo, mf, b) else none
+  | _ => none
+
+def runAdds (b : Buf) : List (Nat × Bool × Bytes) → Buf × List String
+  | [] => (b, [])
+  | (fo, mf, p) :: rest =>
+    match b.add fo mf p with
+    | .ok b' => let r := runAdds b' rest; (r.1, "ok" :: r.2)
+    | .error e => let r := runAdds b rest; (r.1, showErr e :: r.2)
+
+def showSection (data : List Cell) (r : Range) : String :=
+  s!"({r.start},{r.stop}):{hexOfCells ((data.drop r.start).take (r.stop - r.start))}"
+
+def showBuf (b : Buf) : String :=
+  s!"proto={b.ipNumber},len={b.data.length},sections=[{joinWith "," (b.sections.map (showSection b.data))}],end={showOptNat b.endKnown},complete={b.isComplete}"
+
+/-! #### frag.pool -/
+
+def extHeaderNumbers : List Nat := [0, 43, 44, 51, 60, 135, 139, 140]
+def transportNumbers : List Nat := [1, 2, 6, 17, 58]
+
+def parseVlans (s : String) : Option (List Nat) :=
+  if s = "-" then some [] else do
+    let ids ← (s.splitOn "+").mapM argNat
+    if ids.length ≤ 3 ∧ ids.all (· < 4096) then pure ids else none
+
+def parseKey (s : String) : Option Key :=
+  match s.splitOn "," with
+  | [ver, src, dst, ident, proto, vlans, chan] => do
+    let ver ← argNat ver; let src ← argHex src; let dst ← argHex dst; let ident ← argNat ident
+    let proto ← argNat proto; let vlans ← parseVlans vlans; let chan ← argNat chan
+    let alen := if ver = 4 then 4 else 16
+    let idmax := if ver = 4 then 65536 else 4294967296
+    if (ver = 4 ∨ ver = 6) ∧ src.length = alen ∧ dst.length = alen ∧ ident < idmax ∧ proto < 256
+        ∧ ¬ extHeaderNumbers.contains proto ∧ chan < 4294967296 then
+      pure { ver := ver, source := src, destination := dst, identification := ident,
+             payloadIpNumber := proto, vlanIds := vlans, channelId := chan }
+    else none
+  | _ => none
+
+def parseItem (s : String) : Option Op :=
+  match s.splitOn ":" with
+  | ["d", key, ts, fo, mf, h] => do
+    let key ← parseKey key; let ts ← argNat ts; let fo ← argNat fo; let mf ← argBool mf; let b ← argHex h
+    let maxPayload := if key.ver = 4 then 65515 else 65527
+    let fragmenting := mf ∨ fo ≠ 0
+    if ts < 18446744073709551616 ∧ fo ≤ 8191 ∧ b.length ≤ maxPayload
+        ∧ (fragmenting ∨ ¬ transportNumbers.contains key.payloadIpNumber) then
+      pure (.deliver (.frag key fo mf b) ts)
+    else none
+  | ["u", key, ts, h] => do
+    let key ← parseKey key; let ts ← argNat ts; let b ← argHex h
+    let maxPayload := if key.ver = 4 then 65515 else 65535
+    if ts < 18446744073709551616 ∧ b.length ≤ maxPayload ∧ ¬ transportNumbers.contains key.payloadIpNumber then
+      -- an IPv4 header always carries the fragmentation fields
+      if key.ver = 4 then pure (.deliver (.frag key 0 false b) ts) else pure (.deliver (.plain key b) ts)
+    else none
+  | ["n"] => some (.deliver .nonIp 0)
+  | ["r"] => some .ret
+  | ["t", m] => do let m ← argNat m; if m < 18446744073709551616 then pure (.retain m) else none
+  | _ => none
+
+def showOut : Out → String
+  | .none => "none"
+  | .ok p => s!"ok({p.ipNumber},{if p.isIpv4 then "Ipv4HeaderTotalLen" else "Ipv6HeaderPayloadLen"},{hexOfCells p.payload})"
+  | .err e => showErr e
+  | .returned n => s!"ret({n})"
+  | .retained n => s!"retained({n})"
+
+def showPool (p : Pool) : String :=
+  s!"active={p.active.length},fdata={p.finishedDataBufs.length},fsec={p.finishedSectionBufs.length}"
+
+/-! #### spec.frag.pool -/
+
+open Spec.Reasm in
+def specOp : Defrag.Op → Option (Spec.Reasm.Op Key)
+  | .deliver (.frag k fo mf b) ts => some (.frag k ts { fo := fo, last := !mf, bytes := b })
+  | .deliver (.plain _ _) _ => some .other
+  | .deliver .nonIp _ => some .other
+  | .ret => none
+  | .retain m => some (.expire m)
+
+def showReject : Spec.Reasm.Reject → String
+  | .unaligned o l => s!"err(UnalignedFragmentPayloadLen(offset={o},payload_len={l}))"
+  | .tooBig o l => s!"err(SegmentTooBig(offset={o},payload_len={l},max=65535))"
+  | .endConflict p c => s!"err(ConflictingEnd(previous_end={p},conflicting_end={c}))"
+
+def showSpecOut : Spec.Reasm.Out → String
+  | .none => "none"
+  | .payload b => s!"payload({hexOfBytes b})"
+  | .rejected r => showReject r
+  | .live n => s!"retained({n})"
 
 def run (op : String) (args : List String) : Option String :=
   match op, args with
+  | "frag.buf", [proto, stale, adds] => do
+      let proto ← argNat proto; let _ ← argHex stale
+      if proto ≥ 256 then none
+      let adds ← if adds = "-" then some [] else (adds.splitOn ";").mapM parseAdd
+      let r := runAdds (Buf.new proto) adds
+      pure (joinWith ";" r.2 ++ "|" ++ showBuf r.1)
+  | "frag.pool", [history] => do
+      let ops ← (history.splitOn ";").mapM parseItem
+      let r := Session.new.run ops
+      pure (joinWith ";" (r.2.map showOut) ++ "|" ++ showPool r.1.pool)
+  | "spec.frag.pool", [history] => do
+      let ops ← (history.splitOn ";").mapM parseItem
+      let sops := ops.filterMap specOp
+      let r := Spec.Reasm.run ([] : Spec.Reasm.Pool Key) sops
+      pure (joinWith ";" (r.2.map showSpecOut))
   | _, _ => none
 
 end EpModel.Driver.Frag
